@@ -1,6 +1,111 @@
+/-
+C02 — Reader follows the format's line and scoping rules on every input.
+Property theorems (helpers are in Proofs/Lemmas/C02*.lean).
+-/
 import Model.Fmt.Reader
 import Model.Fmt.Files
 import Model.Spec.Format
+import Proofs.Lemmas.C02Store
+import Proofs.Lemmas.C02Spec
+
 namespace C02
-theorem placeholder : True := trivial
+open Fmt Spec.Format
+
+/-! ## The configuration slot store -/
+
+/-- One store operation against one map operation: the invariant is kept and the denoted map
+changes as the abstract map does. -/
+theorem store_step {s : Store} (h : s.Inv) {m : CMap} (hm : ∀ k, s.toMap k = m.get k)
+    (op : StoreOp) :
+    (s.apply op).Inv ∧ ∀ k, (s.apply op).toMap k = (CMap.applyOp m op).get k := by
+  cases op with
+  | setFile key v =>
+    obtain ⟨hi, hg⟩ := Store.set_spec h key v true
+    refine ⟨hi, fun k => ?_⟩
+    simp only [Store.apply, CMap.applyOp, Store.toMap, hg, CMap.get_assign]
+    by_cases hk : k = key
+    · by_cases hv : v = [] <;> simp [hk, hv]
+    · simpa [hk, Store.toMap] using hm k
+  | setInternal key v =>
+    obtain ⟨hi, hg⟩ := Store.set_spec h key v false
+    refine ⟨hi, fun k => ?_⟩
+    simp only [Store.apply, CMap.applyOp, Store.toMap, hg, CMap.get_assign]
+    by_cases hk : k = key
+    · by_cases hv : v = [] <;> simp [hk, hv]
+    · simpa [hk, Store.toMap] using hm k
+  | delete key =>
+    obtain ⟨hi, hg⟩ := Store.delete_spec h key
+    refine ⟨hi, fun k => ?_⟩
+    simp only [Store.apply, CMap.applyOp, Store.toMap, hg, CMap.get_del]
+    by_cases hk : k = key
+    · simp [hk]
+    · simpa [hk, Store.toMap] using hm k
+
+/-- **store_refines_map.** Starting from any store that satisfies the invariant (in particular
+the zero `Result`, or a store `Reset` has just wiped — whatever its stale slots hold), every
+sequence of `key: value` lines, `SetConfig` calls and deletions leaves a store that
+* denotes exactly the map obtained by folding the same operations over an abstract map,
+* has pairwise distinct keys in `arr[0..len)` (= `Config` as callers see it),
+* has an index that is exactly the inverse of `arr[0..len)` (`Store.Inv.idx`), within capacity,
+* and whose `Config` list, read as a map, is that same map. -/
+theorem store_refines_map (s0 : Store) (h0 : s0.Inv) (m0 : CMap) (hm : ∀ k, s0.toMap k = m0.get k)
+    (ops : List StoreOp) :
+    let s := ops.foldl Store.apply s0
+    let m := ops.foldl CMap.applyOp m0
+    s.Inv ∧ (∀ k, s.toMap k = m.get k) ∧ (s.live.map Cfg.key).Nodup ∧
+      (∀ k, cfgGet s.live k = m.get k) := by
+  induction ops generalizing s0 m0 with
+  | nil =>
+    exact ⟨h0, hm, Store.live_keys_nodup h0, fun k => (Store.cfgGet_live h0 k).trans (hm k)⟩
+  | cons op ops ih =>
+    obtain ⟨h1, hm1⟩ := store_step h0 hm op
+    exact ih (s0.apply op) h1 (CMap.applyOp m0 op) hm1
+
+/-- The store of a fresh `Result` denotes the empty map. -/
+theorem store_refines_map_from_empty (ops : List StoreOp) :
+    let s := ops.foldl Store.apply Store.empty
+    s.Inv ∧ ∀ k, cfgGet s.live k = (ops.foldl CMap.applyOp []).get k := by
+  have h := store_refines_map Store.empty Store.inv_empty [] (fun k => by
+    simp [Store.toMap, Store.get, Store.configIndex, Store.empty, Store.index, Store.live, buildIndex,
+      buildIndexFrom, Index.get, CMap.get]) ops
+  exact ⟨h.1, h.2.2.2⟩
+
+/-- **Stale slots are inert.** Two stores that satisfy the invariant and denote the same map —
+however different their stale slots `arr[len..]`, their capacities and even the order of their
+live slots — denote the same map after any sequence of operations. -/
+theorem store_independent_of_stale_slots (s1 s2 : Store) (h1 : s1.Inv) (h2 : s2.Inv)
+    (heq : ∀ k, s1.toMap k = s2.toMap k) (ops : List StoreOp) :
+    ∀ k, (ops.foldl Store.apply s1).toMap k = (ops.foldl Store.apply s2).toMap k := by
+  induction ops generalizing s1 s2 with
+  | nil => exact heq
+  | cons op ops ih =>
+    -- run both against the same abstract map: a list of s1's live entries
+    let m : CMap := s1.live.map (fun c => (c.key, c.value, c.file))
+    have hm1 : ∀ k, s1.toMap k = m.get k := by
+      intro k
+      rw [← Store.cfgGet_live h1]
+      simp only [m, CMap.get, cfgGet]
+      induction s1.live with
+      | nil => rfl
+      | cons c cs ihc =>
+        simp only [List.map_cons, List.lookup_cons, List.find?_cons]
+        by_cases hk : c.key = k
+        · simp [hk]
+        · have h1' : (c.key == k) = false := by simpa using hk
+          have h2' : (k == c.key) = false := by simpa using fun e => hk e.symm
+          simp only [h1', h2']; exact ihc
+    have hm2 : ∀ k, s2.toMap k = m.get k := fun k => (heq k).symm.trans (hm1 k)
+    obtain ⟨i1, g1⟩ := store_step h1 hm1 op
+    obtain ⟨i2, g2⟩ := store_step h2 hm2 op
+    exact ih _ _ i1 i2 (fun k => (g1 k).trans (g2 k).symm)
+
+/-- Non-vacuity: a set → delete → re-set history on three keys with slot reuse; the model's
+`Config` is `[c↦3, b↦4]` in slot order and the stale slot still holds `b`'s old entry. -/
+example :
+    let ops := [StoreOp.setFile [97] [49], .setFile [98] [50], .setFile [99] [51], .setFile [97] [],
+                .setFile [98] [], .setFile [98] [52]]
+    let s := ops.foldl Store.apply Store.empty
+    s.live = [⟨[99], [51], true⟩, ⟨[98], [52], true⟩] ∧ s.arr.length = 3 := by
+  decide
+
 end C02
